@@ -126,6 +126,32 @@ def default_vocab():
                  math_specials=['~', '&'], unknown_ok=True, verb=True, name='default')
 
 
+def core_vocab():
+    """The core sublanguage of latex2text (C03): text, groups, font macros, symbols, accents, fractions,
+    specials, comments, paragraphs, lists, unknown environments, inline/display math."""
+    from ..model import l2t as L
+    macros = {}
+    for n in ('textbf', 'emph', 'textit', 'texttt', 'textsc'):
+        macros[n] = M('{', ['text'] if n != 'emph' else None)
+    macros['text'] = M('{', ['text'], math_only=True)
+    macros['mathrm'] = M('{', math_only=True)
+    for n in L.SYMBOLS:
+        if n in ('i', 'j'):
+            continue
+        macros[n] = M('')
+    for n in L.CONTROL_SYMBOLS:
+        macros[n] = M('')
+    for n in L.ACCENTS:
+        macros[n] = M('{', text_only=True, letterarg='aeoucnzAEO', letterarg_macros=['i'] if n in "'`^\"" else None)
+    macros['frac'] = M('{{', math_only=True)
+    macros['sqrt'] = M('[{', math_only=True)
+    macros['item'] = M('[', text_only=True)
+    envs = {'itemize': M('['), 'enumerate': M('['), 'zzenv': M(''), 'myenv': M('')}
+    v = Vocab(macros, envs, specials=['~', '--', '---', '``', "''", '&'], math_specials=['~', '&'],
+              unknown_ok=False, verb=False, name='core')
+    return v
+
+
 class Gen(object):
     """Random derivations.  `profile` restricts the item kinds; see `gen_doc`."""
 
@@ -338,6 +364,14 @@ class Gen(object):
                 out.append((pre, 'mark', kind[1]))
             elif kind in ('[', 'o', '[nospace'):
                 out.append((pre, 'grp', '[', ']', self.block(depth + 1, amath, maxn=2)))
+            elif kind in ('{', 'm') and d.get('letterarg'):
+                r = rng.random()
+                if r < 0.45:
+                    out.append((pre, 'tok', rng.choice(d['letterarg'])))
+                elif r < 0.6 and d.get('letterarg_macros'):
+                    out.append((pre, 'tokm', rng.choice(d['letterarg_macros'])))
+                else:
+                    out.append((pre, 'grp', '{', '}', [('T', rng.choice(d['letterarg']))]))
             elif kind in ('{', 'm'):
                 r = rng.random()
                 if r < self.p['tokarg'] and not is_env:
